@@ -21,7 +21,7 @@ calls pandas fill functions. Every kind is compared cell by cell with the model 
 bit-exactly), pandas results also by index labels / columns, the array result with the `.values` of the pandas
 results, and every input object with a snapshot taken before the call.
 """
-import struct
+import math
 
 from hypothesis import strategies as st
 
@@ -97,9 +97,10 @@ def _isnan(x):
 
 
 def _same_cell(a, b):
-    if _isnan(a) or _isnan(b):
-        return _isnan(a) and _isnan(b)
-    return struct.pack('<d', a) == struct.pack('<d', b)
+    """NaN matches NaN, everything else bit for bit (so -0.0 is not 0.0)"""
+    if a == b:
+        return a != 0 or math.copysign(1.0, a) == math.copysign(1.0, b)
+    return a != a and b != b
 
 
 def _is_num(m):
@@ -300,14 +301,23 @@ def _build(cols, dim, kind, spec=None):
     return pd.DataFrame(a, index=index, columns=_colnames(spec, kind, len(cols)))
 
 
+_LABELS = {}
+
+
 def _labels(kind, n, spec=None):
     import pandas as pd
     if kind == 'range':
         return list(range(n))
-    if kind == 'dt':
-        return [pd.Timestamp(mkdt(D0 + i)) for i in range(n)]
-    v = _ix_values(spec['ix'], n)
-    return v if spec['ix']['type'] == 'int' else [pd.Timestamp(mkdt(D0 + i)) for i in v]
+    key = (kind, n) if kind == 'dt' else (spec['ix']['type'], spec['ix']['base'], tuple(spec['ix']['pattern']), n)
+    if key not in _LABELS:
+        if len(_LABELS) > 500:
+            _LABELS.clear()
+        if kind == 'dt':
+            _LABELS[key] = [pd.Timestamp(mkdt(D0 + i)) for i in range(n)]
+        else:
+            v = _ix_values(spec['ix'], n)
+            _LABELS[key] = v if spec['ix']['type'] == 'int' else [pd.Timestamp(mkdt(D0 + i)) for i in v]
+    return list(_LABELS[key])
 
 
 def _snap(x):
@@ -366,7 +376,23 @@ def _check_object(what, x, kind, res, dim, ncols, variants, n, spec=None):
     return got
 
 
+class _Lazy(object):
+    """description of a call, rendered only when a message is needed"""
+
+    def __init__(self, *a):
+        self.a = a
+
+    def __str__(self):
+        return _render(*self.a)
+
+    __repr__ = __str__
+
+
 def _what(fname, x, args):
+    return _Lazy(fname, x, args)
+
+
+def _render(fname, x, args):
     import numpy as np
     if isinstance(x, np.ndarray):
         xs = 'np.array(%s)' % short(x.tolist(), 200) if x.size else 'np.zeros(%s)' % (x.shape,)
@@ -811,7 +837,7 @@ def enum_vectors(tier):
 
 
 SUBS = [
-    Sub('fillna', _fillna_case, run_fillna, quick=8000, thorough=15000,
+    Sub('fillna', _fillna_case, run_fillna, quick=6000, thorough=15000,
         rule='vectors and 1-3 column frames from a NaN-run grammar (alternating NaN/value runs of length 0-4, <= 20 rows; further '
              'columns share the mask, follow their own grammar or are all-NaN) and, one case in seven, LONG inputs of exactly 64/65/100/128/200/257 rows '
              '(run-length coded, runs of 1..130 around the powers of two); method = None, one of ffill/bfill/constant/nona/fnna/ffill_na/ffill_0, '
@@ -826,11 +852,11 @@ SUBS = [
                                  'interior_run': 0.2, 'partial_nan_row_2d': 0.08,
                                  'rows>=64': 0.08, 'rows=64|65|100|128': 0.04, 'rows>=200': 0.02, 'nan_run>=32': 0.04, 'limit>=32_and_longer_run': 0.004,
                                  'limit==run_length': 0.04, 'limit==run_length-1': 0.03, 'ix_duplicate_labels': 0.1, 'ix=int_unique': 0.15,
-                                 'cols_unsorted': 0.04, 'cols_duplicated': 0.03, 'cols_prefix': 0.03, 'cols_int': 0.03, 'no_nan': 0.03,
+                                 'cols_unsorted': 0.04, 'cols_duplicated': 0.03, 'cols_prefix': 0.03, 'cols_int': 0.03, 'no_nan': 0.015,
                                  'ends_valid_interior_nan': 0.05, 'tail_fill_ends_valid': 0.005, 'm=const_zero': 0.02, 'zero_cell': 0.05,
                                  'limit_with_drop': 0.08, 'tail_fill_trailing_run>limit': 0.005, 'axis0_positional': 0.1, 'noop_with_method': 0.05,
-                                 'allnan_column_in_frame': 0.05, 'emptied_before_last_method': 0.001, 'rows=1': 0.02}),
-    Sub('nona_fn', _nona_case, run_nona, quick=2000, thorough=4000,
+                                 'allnan_column_in_frame': 0.05, 'emptied_before_last_method': 0.001, 'rows=1': 0.008}),
+    Sub('nona_fn', _nona_case, run_nona, quick=1600, thorough=4000,
         rule='the same vectors / frames / index and column variants through nona(x) (edge None on every object; edge 1 / -1 on the pandas objects with unique '
              'labels). Oracle: exactly the all-NaN rows go (edge 1: only those after the last valid row, edge -1: only those before the first), labels kept, '
              'array == .values, argument unchanged. non-trivial = the input has an all-NaN row or is empty',
@@ -841,3 +867,5 @@ SUBS = [
                  'ffill/bfill/constant/nona/fnna, 10 pairs headed by ffill_na/ffill_0, x limit None/1/2/3 (constant only with None); same oracle as fillna'
                  % ENUM_MAXLEN),
 ]
+
+SUBS[0].qshards = 8     # quick tier: 8 processes x 750 cases (the runner reads this attribute)
